@@ -25,7 +25,9 @@ all inputs (structural induction over the mutual AST types):
   the full round trip and fixed point for resources of messages/terms with single-line values;
 * `serialize_output_str_invariant` — the serializer's output on a parsed tree keeps the `&str` invariant;
 * T3 `pattern_roundtrip` — multi-line patterns (common indent, blank lines, excess indentation,
-  placeable-led lines, inline start for `.`/`[`/`*`, trim) and select expressions, nested, at every level;
+  placeable-led lines, inline start for `.`/`[`/`*`, trim) and select expressions, nested, at every level —
+  also inside doubled / nested placeables, call arguments and selectors (`inline_roundtrip_level`,
+  `placeable_roundtrip_level`: the level-indexed inline layer);
 * T3 `roundtrip_class_partial`, `roundtrip_class_sources` — **both full statements for every source
   whose parse tree is `RoundTrippable`** (decidable): messages and terms with optional values,
   attributes, attached comments; free comments of the three levels; Junk when serialising without junk.
@@ -33,8 +35,8 @@ all inputs (structural induction over the mutual AST types):
 
 Missing for the full statements: trees outside `RoundTrippable` — Junk with `with_junk = true` (needs a
 containment theorem for broken entries), `\r` inside text (the `\r` doubling), text element splits
-that the parser itself would join differently (only equal under `norm`, e.g. CRLF sources), selects
-inside doubled placeables, and "every parser output is in the class".  `C04_fixpoint_statement` needs
+that the parser itself would join differently (only equal under `norm`, e.g. CRLF sources), and "every
+parser output is in the class".  `C04_fixpoint_statement` needs
 nothing else than `C04_roundtrip_statement` (`fixpoint_of_roundtrip`).
 -/
 namespace FluentProofs.C04
@@ -277,9 +279,11 @@ last byte; two texts adjacent only across a line break; a text that starts a lin
 or spaces followed by a byte other than ` ` `\n` `.` `[` `*`, or only spaces in front of a placeable (the
 F17 shape); the last text does not end with ` `/`\n`; the first text fits the layout the serializer
 chooses (`starts_on_new_line`: not a blank line / inline: no leading space); for multi-line patterns
-some line has no excess indentation — with placeables that are valid inline expressions or **select
-expressions** (selector accepted by the parser, valid keys, exactly one default, values again
-`rtPattern`), recursively.
+some line has no excess indentation (or no line takes part in the common-indent computation) — with
+placeables of the class `rtExpr`: inline expressions `rtInline` (like `validInline`, but a nested placeable
+may again contain any `rtExpr`) that are not term attributes, or **select expressions** (selector an
+`rtInline` of a shape accepted by the parser, valid keys, exactly one default, values again `rtPattern`),
+recursively — so selects may sit inside `{{ … }}`, `{ { { … } } }`, call arguments and selectors.
 
 For such `p` and every level `L`: (serializer) from a writer at level `L` whose buffer ends with
 neither `\n` nor `\r`, `serialize_pattern` appends exactly `patText L p` (newline + `4·(L+1)` spaces
@@ -296,6 +300,39 @@ theorem pattern_roundtrip (p : List (PatElem Bytes)) (h : rtPattern p = true) (L
       PatFollow s (q + (patText L p).length + 1) q' → 4 * (q' - q) + 8 ≤ n →
       ∃ els, getPattern s n q = .ok (some els) q' ∧ mapPat (spanBytes s) els = p) :=
   ⟨(rtPattern_patRT p h L).ser, (rtPattern_patRT p h L).parse⟩
+
+/-- **T3, the level-indexed inline layer.**  For every inline expression of the class `rtInline` (decidable:
+like `validInline`, but a nested placeable may contain any `rtExpr`, in particular a select expression —
+directly, `{ $x -> … }`, or deeper inside call arguments) and every indent level `L`: (serializer) from a
+writer at level `L` whose buffer ends with neither `\n` nor `\r`, `serialize_inline_expression` appends
+exactly `inlineText L e` (= `inlineBytes e` when `e` is select-free, `inlineText_valid`; the variants of a
+nested select one level deeper, its closing brace after `4·L` spaces) and stays at level `L`; (parser) on
+every source with the `&str` invariant containing that text, followed by something that cannot extend the
+expression, `get_inline_expression` returns a tree that resolves to `e`. -/
+theorem inline_roundtrip_level (e : Inline Bytes) (h : rtInline e = true) (L : Nat) :
+    (∀ w : Writer, WS w L false →
+      ∃ w', serInline w e = some w' ∧ w'.buffer = w.buffer ++ (inlineText L e).toArray ∧ WS w' L false) ∧
+    (∀ (s : Src) (p fuel : Nat), AsciiThenBoundary s → At s p (inlineText L e) →
+      Follow s (p + (inlineText L e).length) → 4 * (inlineText L e).length + 4 ≤ fuel →
+      ∃ e', getInline s fuel false p = .ok e' (endPos e s (p + (inlineText L e).length)) ∧
+        e'.mapS (spanBytes s) = e) :=
+  ⟨(rtInline_inlRT e h L).ser, (rtInline_inlRT e h L).parse⟩
+
+/-- **T3, placeables at a level.**  For every expression of the class `rtExpr` and every level `L`, as a
+pattern element: `serialize_element` appends (after the indentation, at a line start) exactly `exprText L x`
+— `{ i }`, `{{ e }}` or `{ sel ->` … `}` — and `get_placeable`, started behind the opening brace, reads it
+back to exactly `x`. -/
+theorem placeable_roundtrip_level (x : Expr Bytes) (h : rtExpr x = true) (L : Nat) :
+    (∀ (w : Writer) (nl : Bool), WS w L nl →
+      ∃ w', serElement w (.placeable x) = some w' ∧
+        w'.buffer = w.buffer ++ ((if nl then spacesL (4 * L) else []) ++ exprText L x).toArray ∧ WS w' L false) ∧
+    (∀ (s : Src) (p n : Nat), AsciiThenBoundary s → At s p (exprText L x) → 4 * (exprText L x).length + 11 ≤ n →
+      ∃ ex, getPlaceable s n (p + 1) = .ok ex (p + (exprText L x).length) ∧ ex.mapS (spanBytes s) = x) :=
+  ⟨(rtExpr_plRT x h L).ser, (rtExpr_plRT x h L).parse⟩
+
+/-- the select-free class is contained in the level-indexed one -/
+theorem validInline_rtInline (e : Inline Bytes) (h : validInline e = true) : rtInline e = true :=
+  rtInline_of_valid e h
 
 /-- **The serializer's output on a parsed tree is again a `&str`-shaped byte string**: for every
 `String` and both options, the output of serialising its parse tree satisfies `AsciiThenBoundary` (the
@@ -484,6 +521,34 @@ rejects a variable / term / placeable value (the parser does, too) -/
 example : (validInline (.fn [70] [] [([120], .msg [109] (some [97])), ([121], .fn [71] [.var [118]] [])]) &&
     !validInline (.fn [70] [] [([120], .var [118])]) && !validInline (.fn [70] [] [([120], .term [116] none none)]) &&
     !validInline (.fn [70] [] [([120], .placeable (.inline (.num [49])))])) = true := by decide +kernel
+
+/-- test (class extension 3, selects inside nested placeables): `a={{$x ->\n*[b]w\n}}` (doubled placeable),
+`a = { { { $x ->\n*[b] w\n} } }\n` (chain of nested placeables),
+`a = { F({ $x ->\n*[a] b\n}, k: G({ $y ->\n*[c] d\n})) }\n` (inside a positional argument and inside the call
+that is the value of a named argument) and `a = { F({ $x ->\n*[a] b\n}) ->\n*[c] d\n}\n` (inside the selector)
+are in the class and round-trip -/
+example : (inClass #[97, 61, 123, 123, 36, 120, 32, 45, 62, 10, 42, 91, 98, 93, 119, 10, 125, 125] false &&
+    inClass #[97, 61, 123, 123, 36, 120, 32, 45, 62, 10, 42, 91, 98, 93, 119, 10, 125, 125] true &&
+    roundtripHolds #[97, 61, 123, 123, 36, 120, 32, 45, 62, 10, 42, 91, 98, 93, 119, 10, 125, 125] true &&
+    inClass #[97, 32, 61, 32, 123, 32, 123, 32, 123, 32, 36, 120, 32, 45, 62, 10, 42, 91, 98, 93, 32, 119, 10, 125, 32,
+      125, 32, 125, 10] false &&
+    roundtripHolds #[97, 32, 61, 32, 123, 32, 123, 32, 123, 32, 36, 120, 32, 45, 62, 10, 42, 91, 98, 93, 32, 119, 10, 125,
+      32, 125, 32, 125, 10] true) = true := by decide +kernel
+
+example : (inClass #[97, 32, 61, 32, 123, 32, 70, 40, 123, 32, 36, 120, 32, 45, 62, 10, 42, 91, 97, 93, 32, 98, 10, 125, 44,
+      32, 107, 58, 32, 71, 40, 123, 32, 36, 121, 32, 45, 62, 10, 42, 91, 99, 93, 32, 100, 10, 125, 41, 41, 32, 125, 10] false &&
+    roundtripHolds #[97, 32, 61, 32, 123, 32, 70, 40, 123, 32, 36, 120, 32, 45, 62, 10, 42, 91, 97, 93, 32, 98, 10, 125,
+      44, 32, 107, 58, 32, 71, 40, 123, 32, 36, 121, 32, 45, 62, 10, 42, 91, 99, 93, 32, 100, 10, 125, 41, 41, 32, 125,
+      10] true &&
+    inClass #[97, 32, 61, 32, 123, 32, 70, 40, 123, 32, 36, 120, 32, 45, 62, 10, 42, 91, 97, 93, 32, 98, 10, 125, 41, 32, 45,
+      62, 10, 42, 91, 99, 93, 32, 100, 10, 125, 10] false &&
+    roundtripHolds #[97, 32, 61, 32, 123, 32, 70, 40, 123, 32, 36, 120, 32, 45, 62, 10, 42, 91, 97, 93, 32, 98, 10, 125, 41,
+      32, 45, 62, 10, 42, 91, 99, 93, 32, 100, 10, 125, 10] true) = true := by decide +kernel
+
+/-- test: the text of a select inside a doubled placeable at level 1 — `{{ $x ->`, the default variant at level 2
+with the `*` in the last indentation column, the closing ` }}` after 4 spaces -/
+example : exprText 1 (.inline (.placeable (.select (.var [120]) [.mk (.ident [98]) [.text [119]] true]))) =
+    "{{ $x ->\n       *[b] w\n     }}".toUTF8.data.toList := by decide +kernel
 
 /-- census: `any_char.ftl` — with_junk=true: true, with_junk=false: true -/
 def fixture_any_char : Src :=
